@@ -151,3 +151,78 @@ Proof.
   vm_compute in E. inversion E; subst t. vm_compute in Er. inversion Er; subst r.
   vm_compute. repeat split; reflexivity.
 Qed.
+
+(* ---------- the remaining hypotheses of lookup_ok / unique_name are needed ---------- *)
+Definition t_dup_name : option tables := Eval vm_compute in dec_case case_dup_name.
+Definition t_foreign_name : option tables := Eval vm_compute in dec_case case_foreign_name.
+Definition t_derived_clash : option tables := Eval vm_compute in dec_case case_derived_clash.
+
+(* two requirements of one version under one name: the copy installed for the second shadows
+   the copy the first one resolved to *)
+Theorem lookup_refuted_dup_name :
+  exists t r, t_dup_name = Some t /\ no_derived_tbl (tb_m t) = true /\ no_alias_tbl (tb_r t) = true /\
+    names_tbl (tb_m t) = true /\ distinct_tbl (tb_m t) (tb_r t) = false /\ run t = Ok r /\
+    exists l, In l (r_log r) /\ node_lookup (r_tree r) (l_from l) (lname (l_req l)) <> Some (l_to l).
+Proof.
+  destruct t_dup_name as [t|] eqn:E; [|vm_compute in E; discriminate].
+  destruct (run t) as [r| | |] eqn:Er; try (vm_compute in E; inversion E; subst t; vm_compute in Er; discriminate).
+  exists t, r. split; auto.
+  assert (Hb : exists l, In l (bad_lookups r)).
+  { vm_compute in E. inversion E; subst t. vm_compute in Er. inversion Er; subst r. vm_compute. eexists. left. reflexivity. }
+  split; [vm_compute in E; inversion E; subst t; vm_compute; reflexivity|].
+  split; [vm_compute in E; inversion E; subst t; vm_compute; reflexivity|].
+  split; [vm_compute in E; inversion E; subst t; vm_compute; reflexivity|].
+  split; [vm_compute in E; inversion E; subst t; vm_compute; reflexivity|].
+  split; auto. destruct Hb as [l Hl]. unfold bad_lookups in Hl. apply filter_In in Hl. destruct Hl as [Hl Hc].
+  exists l. split; auto. intro F. rewrite F in Hc. rewrite Nat.eqb_refl in Hc. discriminate.
+Qed.
+
+(* a client that answers a requirement on a with a version of b: the copy is filed under b *)
+Theorem lookup_refuted_foreign_name :
+  exists t r, t_foreign_name = Some t /\ no_derived_tbl (tb_m t) = true /\ no_alias_tbl (tb_r t) = true /\
+    names_tbl (tb_m t) = false /\ distinct_tbl (tb_m t) (tb_r t) = true /\ run t = Ok r /\
+    exists l, In l (r_log r) /\ node_lookup (r_tree r) (l_from l) (lname (l_req l)) <> Some (l_to l).
+Proof.
+  destruct t_foreign_name as [t|] eqn:E; [|vm_compute in E; discriminate].
+  destruct (run t) as [r| | |] eqn:Er; try (vm_compute in E; inversion E; subst t; vm_compute in Er; discriminate).
+  exists t, r. split; auto.
+  assert (Hb : exists l, In l (bad_lookups r)).
+  { vm_compute in E. inversion E; subst t. vm_compute in Er. inversion Er; subst r. vm_compute. eexists. left. reflexivity. }
+  split; [vm_compute in E; inversion E; subst t; vm_compute; reflexivity|].
+  split; [vm_compute in E; inversion E; subst t; vm_compute; reflexivity|].
+  split; [vm_compute in E; inversion E; subst t; vm_compute; reflexivity|].
+  split; [vm_compute in E; inversion E; subst t; vm_compute; reflexivity|].
+  split; auto. destruct Hb as [l Hl]. unfold bad_lookups in Hl. apply filter_In in Hl. destruct Hl as [Hl Hc].
+  exists l. split; auto. intro F. rewrite F in Hc. rewrite Nat.eqb_refl in Hc. discriminate.
+Qed.
+
+(* with derived packages a directory can hold a child and an alias of one name *)
+Definition clash (n : tnode) : bool := negb (nodupb (map fst (t_children n) ++ map fst (t_alias n))).
+
+Theorem unique_name_refuted_derived :
+  exists t r n, t_derived_clash = Some t /\ no_derived_tbl (tb_m t) = false /\ run t = Ok r /\
+    In n (r_tree r) /\ clash n = true.
+Proof.
+  destruct t_derived_clash as [t|] eqn:E; [|vm_compute in E; discriminate].
+  destruct (run t) as [r| | |] eqn:Er; try (vm_compute in E; inversion E; subst t; vm_compute in Er; discriminate).
+  assert (Hb : exists n, In n (filter clash (r_tree r))).
+  { vm_compute in E. inversion E; subst t. vm_compute in Er. inversion Er; subst r. vm_compute. eexists. left. reflexivity. }
+  destruct Hb as [n Hn]. apply filter_In in Hn. destruct Hn as [Hn Hc]. exists t, r, n.
+  split; auto. split; [vm_compute in E; inversion E; subst t; vm_compute; reflexivity|]. auto.
+Qed.
+
+Lemma clash_not_nodup : forall n, clash n = true -> ~ NoDup (map fst (t_children n) ++ map fst (t_alias n)).
+Proof.
+  intros n H N. unfold clash in H. assert (nodupb (map fst (t_children n) ++ map fst (t_alias n)) = true).
+  { clear H. induction N; simpl; auto. rewrite IHN. destruct (memb x l) eqn:E; auto. apply memb_In in E. contradiction. }
+  rewrite H0 in H. discriminate.
+Qed.
+
+(* the example universe: the root has three requirements, the dev one is not kept *)
+Theorem example_kept :
+  exists t reqs, t_example = Some t /\ tbl_lookup (tb_r t) (tb_root t) = Ok reqs /\ length reqs = 3 /\
+    length (regular_imports (tbl_lookup (tb_m t)) reqs) = 2.
+Proof.
+  destruct t_example as [t|] eqn:E; [|vm_compute in E; discriminate].
+  vm_compute in E. inversion E; subst t. eexists. eexists. split; [reflexivity|]. vm_compute. repeat split; reflexivity.
+Qed.
